@@ -94,10 +94,19 @@ func (a *adapter) preload(ks []int, bad []int) {
 	for i, k := range ks {
 		var data []byte
 		if isBad[i] {
-			if k%2 == 0 {
+			switch (k + i) % 5 {
+			case 0:
 				data = []byte("{not json")
-			} else {
+			case 1:
 				data = []byte(fmt.Sprintf(`{"id":"id%d","status":"Bogus","data":%d}`, k, k))
+			case 2:
+				// valid JSON written by somebody else: no field of a job entry
+				data = []byte(`{"kind":"heartbeat"}`)
+			case 3:
+				// a job entry without a status
+				data = []byte(fmt.Sprintf(`{"id":"id%d","data":%d}`, k, k))
+			default:
+				data = []byte(`[1,2,3]`)
 			}
 		} else {
 			data = []byte(fmt.Sprintf(`{"id":"id%d","status":"Queued","data":%d}`, k, k))
